@@ -12,7 +12,8 @@ CLAIMED = {
         "Bounded symbolic model checking: the real evaluate()/__call__/registry path of every GEMINI is executed on a symbolic "
         "row-stochastic P (open simplex) and a fully symbolic symmetric affinity; the solver shows the returned term equals the "
         "definitional oracle for ALL reals of the listed shapes, per feasible path. Right level because the property is a "
-        "first-order identity over the reals once log/sqrt are atoms.",
+        "first-order identity over the reals once log/sqrt are atoms.  Long inputs (N up to 300 quick / 1031 thorough rows drawn from 3 distinct "
+        "symbolic rows) exercise length-dependent code (blocking) with the code's own constants.",
         "Trusted: symx normal form + z3; exact reals (no float rounding); shapes (n,K) listed in evidence.bounds; ot.emd2 is an "
         "uninterpreted function (POT computing W1 is trusted); scikit-learn kernels are outside (C11 covers dispatch).",
         "DESIGN.md §4 C01", None),
@@ -20,7 +21,8 @@ CLAIMED = {
         "Bounded symbolic model checking: the real evaluate(return_grad=True) runs on symbolic predictions (simplex by substitution); "
         "the returned score term is differentiated exactly (symx.diff) along every simplex direction and the solver shows it equals "
         "the difference of returned gradient entries, per feasible path (TV sign patterns as sign atoms, MMD zero-distance masks, all "
-        "clipping patterns on the closed box).  Also score(grad)==score(no grad), shape, zero gradient at clipped entries.",
+        "clipping patterns on the closed box).  Also score(grad)==score(no grad), shape, zero gradient at clipped entries; long inputs "
+        "(N rows from 3 distinct rows) through the chain rule over the positions of a row.",
         "Trusted: symx (normal form, differentiation) + z3; differentiability region only (ties excluded); Wasserstein through the stubbed "
         "ot.emd2 with the envelope-theorem differential (POT's duals are trusted); exact reals; shapes in evidence.bounds.",
         "DESIGN.md §4 C02", None),
@@ -28,7 +30,9 @@ CLAIMED = {
         "Bounded symbolic model checking of the real prox functions on symbolic weights/alpha/M with every branch (sort orders, clipping, "
         "zero rows, ties) forked: group lasso output equals the documented explicit form and satisfies the stationarity certificate; "
         "LassoNet hier-prox output satisfies the quantifier-free optimality certificate A/A2/A3, and the lemmas that make the certificate "
-        "sufficient are discharged by the solver in the same run.",
+        "sufficient are discharged by the solver in the same run.  A differential harness (real operator vs. an independently written "
+        "Hier-Prox on the same symbolic inputs, outputs compared by normal form / solver on every joint path) extends the reach to 3 hidden "
+        "units and grouped blocks with several outputs.",
         "Trusted: symx + z3; exact reals; shapes (d,k,h) and group partitions listed in evidence.bounds; optimality of the hierarchical "
         "operator is by certificate + lemmas (T2 up to h=3, L2 for k=2), the direct 'no competitor does better' query only for the group lasso with h<=2.",
         "DESIGN.md §4 C05", None),
@@ -38,7 +42,8 @@ CLAIMED = {
         "exact differentiation of the forward terms, per ReLU pattern / cut ordering. (2) the real fit loop for one epoch under stubs "
         "(identity validation, symbolic RNG, recording optimiser that re-randomises parameters): at every step the direction handed "
         "to the optimiser equals -d/dtheta [GEMINI(infer(X_batch), A_batch) - penalty], the GEMINI being re-evaluated on that step's own "
-        "prediction terms (RIM l2, KernelRIM kernel-weighted l2, must-link/cannot-link terms included).",
+        "prediction terms (RIM l2, KernelRIM kernel-weighted l2, must-link/cannot-link terms included -- with a constrained pair inside a "
+        "mini-batch, vacuity-guarded); sparse models also at parameters with an exactly-null feature row.",
         "Trusted: symx + z3; sklearn softmax replaced by its exp contract; predictions assumed unclipped in layer 2; shapes and "
         "(family, GEMINI, batch size, solver) grid listed in evidence.bounds; exact reals.",
         "DESIGN.md §4 C03", None),
@@ -47,7 +52,8 @@ CLAIMED = {
         "original run are compared term by term (score invariant, gradient equivariant); sample-independent predictions give 0 (1/2 "
         "for chi2); lower/upper bounds by solver inequalities (KL via tangent instances of log); on the CLOSED simplex every path "
         "(zeros, one-hot rows, ties, coinciding clusters) must leave score and gradient defined; empty clusters get exactly zero "
-        "gradient and change the score by <= 1e-9 relative; MI of a balanced hard partition is within 1e-9 of log K.",
+        "gradient and change the score by <= 1e-9 relative; MI of a balanced hard partition is within 1e-9 of log K.  Long inputs (67 / 300 "
+        "rows from 2 distinct rows) under reversal, rotations and an interleaving of the samples.",
         "Trusted: symx + z3; 'finite' is algebraic definedness in exact arithmetic (float overflow/underflow is outside); shapes "
         "(2,2),(3,2),(2,3) with all permutations; transport stub canonical under relabelling; undischarged bounds are listed in the evidence.",
         "DESIGN.md §4 C13", None),
